@@ -17,6 +17,7 @@ import (
 	"runtime"
 	"strings"
 	"testing"
+	"time"
 
 	"github.com/segmentio/encoding/thrift"
 	"pgregory.net/rapid"
@@ -157,7 +158,10 @@ func (e *engine) run(j *job) bool {
 	if j.nt {
 		e.resp.Hashes = append(e.resp.Hashes, evid.Hash([]byte(e.sig), []byte{byte(e.c.P)}, []byte(j.pi.Group), j.in))
 	}
-	return e.judge(j, guard(j.f))
+	probeStarted.Store(time.Now().UnixNano())
+	fail := guard(j.f)
+	probeStarted.Store(0)
+	return e.judge(j, fail)
 }
 
 func (e *engine) judge(j *job, fail *evid.Failure) bool {
@@ -197,7 +201,9 @@ func (e *engine) runGroup(jobs []*job) {
 			continue
 		}
 		b0 := totalAlloc()
+		probeStarted.Store(time.Now().UnixNano())
 		guard(j.f)
+		probeStarted.Store(0)
 		if d := totalAlloc() - b0; d > allocLimit {
 			f := &evid.Failure{Oracle: "memory allocated by one decoding call stays within 64 MiB for an input of at most 4 KiB",
 				Observed: fmt.Sprintf("TotalAlloc grew by %d bytes (%.1f MiB) for a %d-byte input", d, float64(d)/(1<<20), len(j.in)), Expected: "<= 67108864 bytes", Class: "alloc"}
@@ -549,8 +555,31 @@ func (e *engine) target() {
 	if len(valid) > 700 {
 		stride = len(valid)/500 + 1
 	}
+	// While the binary short-read defect is listed, a cut that makes the binary
+	// reader take a fixed-width item from its stale scratch bytes can announce
+	// 2^31 elements (stalls, 16 GiB requests): such offsets are avoided by
+	// construction and counted; offsets where the next read is a single byte or
+	// string content are kept.
+	var safe map[int]bool
+	if isBinary(c.P) && e.known[classShortRead] {
+		safe = map[int]bool{0: true}
+		for _, m := range marks {
+			switch m.Kind {
+			case "field", "stop", "list", "set", "map":
+				safe[m.Off] = true
+			case "strlen":
+				for k := m.Off + m.Len; k < m.Off+m.Len+m.N; k++ {
+					safe[k] = true
+				}
+			}
+		}
+	}
 	for k := 0; k < len(valid); k++ {
 		if stride > 1 && k > 64 && k < len(valid)-64 && k%stride != 0 {
+			continue
+		}
+		if safe != nil && !safe[k] {
+			e.resp.Excl[classShortRead]++
 			continue
 		}
 		k := k
